@@ -4,6 +4,7 @@ import (
 	"bytes"
 	"encoding/binary"
 	"fmt"
+	"github.com/netflix/rend/verifshim/vsync"
 	"hash/fnv"
 	"regexp"
 	"sort"
@@ -191,6 +192,12 @@ func physCheck(st *fakemc.Store, m *refmodel.Model, touched map[string]bool) (cl
 // RunChunk executes the scenario on a fresh chunked handler.
 func RunChunk(sc ChunkScenario, o ChunkOpts) *ChunkResult {
 	res := &ChunkResult{}
+	vsync.TakeDoublePuts()
+	defer func() {
+		if f := doublePut(sc.Harness); f != nil {
+			res.Findings = append(res.Findings, *f)
+		}
+	}()
 	st := fakemc.NewStore("L1")
 	st.LogOn = true
 	conn := fakemc.NewConn(st, "L1#1")
